@@ -51,7 +51,7 @@ Definition partial (e : eff) (w : world) : world :=
   | ERemoveOut => w
   | ERemoveIdx => w
   | EUnit => mkW (st w) (ex w) false (so w) (ix w) (lost w)
-  | EWriteOut => mkW (st w) true false false false (lost w)             (* a truncated output file *)
+  | EWriteOut => mkW (st w) true false true false (lost w)              (* a well-formed file holding only part of the records *)
   | EIndex => mkW (st w) (ex w) (co w) (so w) false (lost w)
   | ENop => w
   end.
